@@ -620,7 +620,7 @@ def run_draw_case(ctx, case, model=True):
             pps.draw(rnd, p0)
             rnd.render()
         except Exception as e:  # noqa
-            return fail_exc(ctx, "draw+render(previous frame)", e, case)
+            return fail_exc(ctx, "draw_render_previous_frame", e, case)
     try:
         sc.draw(rnd, p)
     except Exception as e:  # noqa
